@@ -7,7 +7,7 @@ from sa.dataflow import call_name, calls_in, dotted, expand, origins, rd_of
 from sa.fold import Folder, Unknown, module_const
 from sa.guard import BAD_FALSE, BAD_TRUE
 from sa.interval import ISet
-from sa.loader import AnalysisError, param_names
+from sa.loader import AnalysisError, decorators, param_names
 from spec.constants import SECP256K1
 
 N = SECP256K1["N"]
@@ -389,6 +389,102 @@ def c01_11(ctx):
     return [rl.guard(ctx, "cecc:PrivateKey.sign", match, what="self-verification of the produced signature", repo=ctx.repo_c, key="self-verify")]
 
 
+def _stream_reads(fn, stream):
+    """(node id, ast.Call) of every `<stream>.read(<non-constant>)` in fn"""
+    out = []
+    for c in ast.walk(fn):
+        if isinstance(c, ast.Call) and isinstance(c.func, ast.Attribute) and c.func.attr == "read" and dotted(c.func.value) == stream and c.args \
+                and not isinstance(c.args[0], ast.Constant):
+            out.append(c)
+    return out
+
+
+# what Signature.der emits for one integer (established by C01.7: leading zeros stripped, 00 prepended iff first byte >= 0x80)
+_DER_INT_DOMAIN = (
+    ("first byte in [1,127] (no padding)", lambda v: {"%s[0]" % v: ISet.range(1, 127), "%s[1]" % v: ISet.range(0, 255), "len(%s)" % v: ISet.range(1, 32)}),
+    ("00 padding followed by a byte in [128,255]", lambda v: {"%s[0]" % v: ISet.point(0), "%s[1]" % v: ISet.range(128, 255), "len(%s)" % v: ISet.range(2, 33)}),
+)
+_PURE_CONVERTERS = {"int", "hex", "big_endian_to_int", "from_bytes", "bytes", "len"}
+
+
+def c01_12(ctx):
+    """DER round trip, reader side: no guard on the *content* of an integer may reject a string the encoder emits.
+    Every function that receives the bytes of r / s (a helper called from Signature.parse, or parse itself through a
+    local) is interpreted over the two shapes Signature.der can produce; a reachable `raise` is a lost round trip."""
+    from sa.ranges import Ranges
+
+    spec = "pecc:Signature.parse"
+    mod, fn = rl.get(ctx, spec)
+    stream = None
+    for st in ast.walk(fn):
+        if isinstance(st, ast.Assign) and isinstance(st.value, ast.Call) and call_name(st.value) == "BytesIO" and isinstance(st.targets[0], ast.Name):
+            stream = st.targets[0].id
+    if stream is None:
+        raise AnalysisError("Signature.parse: stream variable not found")
+    reads = _stream_reads(fn, stream)
+    if len(reads) < 2:
+        raise AnalysisError("Signature.parse: expected two variable-length reads (r and s), found %d" % len(reads))
+    out = []
+    targets = []  # (module, function, variable holding the integer bytes, where)
+    for rd in reads:
+        par = mod.parents.get(rd)
+        # walk up through pure converters
+        node = rd
+        while par is not None and isinstance(par, (ast.Call, ast.Attribute)):
+            if isinstance(par, ast.Attribute):
+                node, par = par, mod.parents.get(par)
+                continue
+            nm = call_name(par)
+            if nm in _PURE_CONVERTERS:
+                node, par = par, mod.parents.get(par)
+                continue
+            # a call that receives the bytes as an argument
+            if node in par.args:
+                idx = par.args.index(node)
+                callee = None
+                if isinstance(par.func, ast.Attribute) and dotted(par.func.value) in ("cls", "self", "Signature"):
+                    callee = mod.functions.get("Signature." + par.func.attr)
+                    skip = 0 if callee is None else (0 if "staticmethod" in decorators(callee) else 1)
+                elif isinstance(par.func, ast.Name):
+                    r = ctx.repo.resolve_name(mod, par.func.id)
+                    callee = r[1] if r and isinstance(r[1], (ast.FunctionDef,)) else None
+                    skip = 0
+                if callee is None:
+                    raise AnalysisError("Signature.parse passes the integer bytes to `%s`, which cannot be resolved" % ast.unparse(par.func))
+                ps = param_names(callee)
+                targets.append((mod, callee, ps[idx + skip], "helper %s" % callee.name))
+            break
+        if par is not None and isinstance(par, ast.Assign) and isinstance(par.targets[0], ast.Name) and node is rd:
+            targets.append((mod, fn, par.targets[0].id, "local `%s`" % par.targets[0].id))
+    seen_t = set()
+    for tmod, tfn, var, where in targets:
+        if (tfn.name, var) in seen_t:
+            continue
+        seen_t.add((tfn.name, var))
+        ctx.note_fn(tmod, tfn)
+        for label, dom in _DER_INT_DOMAIN:
+            track = dom(var)
+            rg = Ranges(ctx.repo, tmod, tfn, track, types=track)  # `types`: the domain also holds right after `var = s.read(n)`
+            if rg.uninterpreted:
+                n0, why = rg.uninterpreted[0]
+                out.append(ctx.err(spec, "%s: test on the integer bytes not understood (%s)" % (where, why), getattr(n0, "ast", None), tmod))
+                continue
+            hit = None
+            for n in rg.cfg.nodes:
+                if n.kind == "raise" and rg.reachable(n.id) and any(not rg.at(n.id, k).is_empty() and rg.at(n.id, k) != track[k] for k in track):
+                    hit = n
+                    break
+            if hit is not None:
+                vals = ", ".join("%s ∈ %s" % (k, rg.at(hit.id, k)) for k in sorted(track))
+                out.append(ctx.bad(spec, "%s rejects an integer the encoder emits (%s): `raise` at line %d is reachable with %s — sig.der() no longer parses back" % (
+                    where, label, hit.lineno, vals), hit.ast, tmod, key="content-guard:" + tfn.name))
+            else:
+                out.append(ctx.ok(spec, "%s: no content guard rejects an encoder-emitted integer (%s)" % (where, label), tfn, tmod, key="content-guard:%s:%s" % (tfn.name, label[:2])))
+    if not targets:
+        out.append(ctx.ok(spec, "the bytes of r and s are converted directly (no content guard between read and int conversion)", fn, mod, key="content-guard"))
+    return out
+
+
 OBLIGATIONS = [
     ("C01.1", "RANGE accept-set", c01_1),
     ("C01.2", "GUARD relation", c01_2),
@@ -401,5 +497,6 @@ OBLIGATIONS = [
     ("C01.9", "DATAFLOW", c01_9),
     ("C01.10", "EXACT", c01_10),
     ("C01.11", "GUARD", c01_11),
+    ("C01.12", "RANGE reader domain", c01_12),
 ]
 FLOORS = {"C01.1": 2, "C01.4": 2, "C01.5": 2, "C01.8": 8, "C01.9": 5, "C01.10": 4}
